@@ -572,5 +572,6 @@ func runC20(ctx *Ctx) {
 	c20purity(ctx)
 	c20derived(ctx)
 	c20conc(ctx)
+	c20d1(ctx)
 	c20race(ctx) // quick: 2 short runs when the -race build is cached; thorough: 15 long runs
 }
